@@ -703,9 +703,10 @@ class Remoter(tyming.Tymee):
 
     def refresh(self):
         """
-        Restart tymer
+        Restart tymer at current tyme so tymeout is measured from latest activity
         """
-        self.tymer.restart()
+        if self.tymth:  # when not wound there is no tyme to measure activity against
+            self.tymer.start()
 
 
     def receive(self):
